@@ -278,7 +278,7 @@ def fam_events(rng, tier):
 def fam_repeat(rng, tier):
     """C10: convergence, no spam, commands once, independence from what the instance processed before."""
     out = []
-    n = 24 if tier == 'thorough' else 6
+    n = 24 if tier == 'thorough' else 4
     for i in range(n):
         casc = rng.choice(['B3', 'D3s', 'A2', 'E3m'])
         mode = list(MODES)[i % 3]
